@@ -165,7 +165,14 @@ func (s *redisServer) execute(w *bufio.Writer, args [][]byte) error {
 	s.metrics.IncCommand(cmd)
 	switch cmd {
 	case "PING":
-		if len(args) > 1 && len(args[1]) > 0 {
+		if len(args) > 2 {
+			return s.respondError(w, "wrong number of arguments for 'PING'")
+		}
+		if len(args) == 2 {
+			// PING echoes its argument as a bulk string, also when it is empty.
+			if args[1] == nil {
+				return writeBulk(w, []byte{})
+			}
 			return writeBulk(w, args[1])
 		}
 		return writeSimpleString(w, "PONG")
